@@ -182,6 +182,8 @@ class Examiner:
                               clean(sugg), sugg["goal_id"], sugg.get("fact_ids", []), goal.ident(), cls, base.short(err)), rp)
             return
         ctx.count("apply:%s:ok" % name)
+        if sugg.get("_goal") or sugg.get("_fact"):
+            ctx.sample({"goal": goal.ident(), "steps_so_far": len(trail), "suggestion": jsonable(sugg), "outcome": "ok"})
         if any(k.startswith("param_") and v != "" and k not in sugg for k, v in step.items()):
             # the advertised result was for the application that keeps these variables general
             ctx.count("apply:%s:ok-with-instantiated-parameters" % name)
@@ -312,15 +314,15 @@ def run(ctx):
     budget = {"logic_base": 10, "logic": 14, "function": 6, "list": 5, "hoare": 4, "nat": 5, "set": 5}
     for thy in theories:
         rng = ctx.rng("lib/" + thy)
-        ex = Examiner(ctx, rng, ctx.scale(2, 5))
+        ex = Examiner(ctx, rng, ctx.scale(2, 3))
         n = 0
         try:
             for item in base.theory_items(thy):
                 if not item.steps:
                     continue
                 n += 1
-                limit = budget.get(thy, 6) if ctx.tier == "quick" else 10 ** 6
-                if not (n <= limit or rng.random() < 0.015):
+                limit = budget.get(thy, 6) if ctx.tier == "quick" else {"nat": 16, "set": 14, "logic": 30}.get(thy, 10 ** 6)
+                if not (n <= limit or rng.random() < (0.015 if ctx.tier == "quick" else 0.03)):
                     continue
                 g = base.Goal(thy, item.name, item.vars, item.prop, steps=item.steps)
                 recorded_prefixes(ctx, ex, g)
@@ -393,6 +395,9 @@ MANIFEST = {
     "design_ref": "DESIGN.md 4/C14",
 }
 FINDINGS = [
+    {"status": "fixed", "key": "fails-outright:exists_elim:AttributeError:'NoneType'_object_has_no", "commit": "fixes/C14-3.patch",
+     "what": "exists_elim suggested for a goal that is followed by a subproof line (logic.ex_conj_distrib after cases + introduction, goal 1, "
+             "fact 0) failed with AttributeError: it re-created the following lines with set_line, dropping their subproofs"},
     {"status": "fixed", "key": "fails-outright:induction:IndexError:list_index_out_of", "commit": "fixes/C14-1.patch",
      "what": "induction suggested for a goal that is an implication (nat.add_cancel_left after revert_intro: x + y = x + z --> y = z, "
              "nat_induct on x) failed with IndexError in apply_theorem: var_induct passed the goal's own assumption as an extra case"},
